@@ -99,7 +99,7 @@ def represent(df: pd.DataFrame, rnd):
             t = rnd.choice([int, float])
             d[c] = d[c].astype(t)
             parts.append(f"{c} as {t.__name__}")
-    k = rnd.choice(["default", "shuffled", "gapped", "strings", "reversed", "duplicates"])
+    k = rnd.choice(["default", "shuffled", "gapped", "strings", "reversed", "duplicates", "multiindex", "dates", "named p_id"])
     if k == "shuffled":
         d.index = rnd.sample(range(n), n)
     elif k == "gapped":
@@ -110,7 +110,20 @@ def represent(df: pd.DataFrame, rnd):
         d.index = list(range(n))[::-1]
     elif k == "duplicates":
         d.index = [7] * n
+    elif k == "multiindex":
+        d.index = pd.MultiIndex.from_arrays([d["hh_id"].to_numpy(), rnd.sample(range(n), n)], names=["h", "k"])
+    elif k == "dates":
+        d.index = pd.date_range("2020-01-01", periods=n)[::-1]
+    elif k == "named p_id":
+        d.index = pd.Index(rnd.sample(range(100, 100 + n), n), name="p_id")      # an index NAMED like a column, other values
     parts.append(f"{k} index")
+    # the order of the columns is a presentation, too
+    co = rnd.choice(["as built", "sorted", "reversed", "shuffled"])
+    if co != "as built":
+        cols = list(d.columns)
+        cols = sorted(cols) if co == "sorted" else cols[::-1] if co == "reversed" else rnd.sample(cols, len(cols))
+        d = d[cols]
+        parts.append(f"columns {co}")
     if rnd.random() < 0.4:
         parts.append("dict of Series")
         return ", ".join(parts), {c: d[c] for c in d.columns}
